@@ -1,11 +1,463 @@
-use vcommon::*;
+//! C07: the WASM and the native state transition function behave identically.
+//!
+//! The same generated blocks (chaingen, C01 workload at reduced volume) are
+//! produced, dry-run and validated by two executors over the *same* databases:
+//! `Executor::native` and `Executor::wasm`. Everything observable must agree.
+
+use chaingen::{
+    BlockPlan,
+    ChainSession,
+    GenOptions,
+    Produced,
+    SessionConfig,
+    SourceKind,
+    Strategy,
+    Validated,
+    canon::{
+        diff_changes,
+        first_debug_diff,
+    },
+    fuel_core_types::{
+        blockchain::{
+            block::{
+                Block,
+                PartialFuelBlock,
+            },
+            header::PartialBlockHeader,
+        },
+        fuel_tx::{
+            Transaction,
+            field::{
+                InputContract,
+                MintAmount,
+                MintAssetId,
+                MintGasPrice,
+                OutputContract,
+                TxPointer as TxPointerField,
+            },
+        },
+        services::executor::{
+            Error as ExecutorError,
+            TransactionExecutionResult,
+        },
+    },
+};
+use vcommon::{
+    rand::{
+        Rng,
+        rngs::StdRng,
+    },
+    serde_json::{
+        Value,
+        json,
+    },
+    *,
+};
+
+const RULE: &str = "C01 workload at reduced volume (sessions of generated blocks, all transaction templates, relayer \
+events, limit-ignoring sources, blocks far below 1024 txs). For every block, on the same uncommitted parent: production \
+by the native and by the WASM executor (same deterministic source), a dry run by both, validation of the produced block \
+by both, and validation of 3-4 invalid variants of it by both. Compared: block (header and transactions), canonical \
+Changes, tx statuses, events, skipped ids with error variants, accept/reject with error variant. Non-trivial block: as \
+C01; distinct = multiset of (template, outcome) per block.";
+
+fn err_name(e: &ExecutorError) -> String {
+    // variant plus first inner variant, no payload
+    let s = format!("{e:?}");
+    let mut out = String::new();
+    let mut depth = 0;
+    for ch in s.chars() {
+        if ch.is_alphanumeric() || ch == '_' {
+            out.push(ch);
+        } else if ch == '(' && depth < 2 {
+            depth += 1;
+            out.push('.');
+        } else {
+            break;
+        }
+    }
+    out.trim_end_matches('.').to_string()
+}
+
+struct Cmp<'a> {
+    report: &'a Report,
+    selftest: Option<u32>,
+    replay: &'a dyn Fn(&str) -> Value,
+}
+
+impl Cmp<'_> {
+    fn violation(&self, sig: &str, detail: String, what: &str) {
+        let sig = if self.selftest.is_some() {
+            format!("selftest:{sig}")
+        } else {
+            sig.to_string()
+        };
+        self.report.violation(sig, detail, (self.replay)(what));
+    }
+
+    fn production(&self, what: &str, n: &Result<Produced, ExecutorError>, w: &Result<Produced, ExecutorError>) {
+        match (n, w) {
+            (Err(a), Err(b)) => {
+                if err_name(a) != err_name(b) {
+                    self.violation(
+                        &format!("{what}_error_variants_differ"),
+                        format!("native {a:?} vs wasm {b:?}"),
+                        what,
+                    );
+                }
+                self.report.count(&format!("c07.{what}.both_error.{}", err_name(a)));
+            }
+            (Ok(_), Err(e)) => self.violation(
+                &format!("{what}_wasm_fails_native_succeeds"),
+                format!("wasm: {e:?}"),
+                what,
+            ),
+            (Err(e), Ok(_)) => self.violation(
+                &format!("{what}_native_fails_wasm_succeeds"),
+                format!("native: {e:?}"),
+                what,
+            ),
+            (Ok(a), Ok(b)) => {
+                self.report.count(&format!("c07.{what}.both_ok"));
+                if a.block.header() != b.block.header() {
+                    self.violation(
+                        &format!("{what}_block_headers_differ"),
+                        format!("native {:?} vs wasm {:?}", a.block.header(), b.block.header()),
+                        what,
+                    );
+                }
+                if a.block.transactions() != b.block.transactions() {
+                    let i = a
+                        .block
+                        .transactions()
+                        .iter()
+                        .zip(b.block.transactions())
+                        .position(|(x, y)| x != y);
+                    self.violation(
+                        &format!("{what}_block_transactions_differ"),
+                        format!(
+                            "{} vs {} transactions, first difference at {i:?}",
+                            a.block.transactions().len(),
+                            b.block.transactions().len()
+                        ),
+                        what,
+                    );
+                }
+                if let Some(d) = diff_changes(&a.canon(), &b.canon()) {
+                    self.violation(&format!("{what}_changes_differ"), format!("native (left) vs wasm (right): {d}"), what);
+                }
+                if let Some(d) = first_debug_diff(&a.tx_status, &b.tx_status) {
+                    self.violation(&format!("{what}_tx_status_differ"), format!("native vs wasm: {d}"), what);
+                }
+                if let Some(d) = first_debug_diff(&a.events, &b.events) {
+                    self.violation(&format!("{what}_events_differ"), format!("native vs wasm: {d}"), what);
+                }
+                let sa: Vec<_> = a.skipped.iter().map(|(id, e)| (format!("{id:x}"), err_name(e))).collect();
+                let sb: Vec<_> = b.skipped.iter().map(|(id, e)| (format!("{id:x}"), err_name(e))).collect();
+                if sa != sb {
+                    let i = sa.iter().zip(sb.iter()).position(|(x, y)| x != y);
+                    self.violation(
+                        &format!("{what}_skipped_lists_differ"),
+                        format!(
+                            "native {} skipped, wasm {}; first difference {:?}: {:?} vs {:?}",
+                            sa.len(),
+                            sb.len(),
+                            i,
+                            i.map(|i| &sa[i]),
+                            i.map(|i| &sb[i])
+                        ),
+                        what,
+                    );
+                }
+                for (_, e) in &a.skipped {
+                    self.report.count(&format!("c07.skip_reason.{}", err_name(e)));
+                }
+            }
+        }
+    }
+
+    fn validation(&self, what: &str, n: &Result<Validated, ExecutorError>, w: &Result<Validated, ExecutorError>) {
+        match (n, w) {
+            (Err(a), Err(b)) => {
+                self.report.count(&format!("c07.{what}.both_reject.{}", err_name(a)));
+                self.report.count("c07.validation_both_reject");
+                if err_name(a) != err_name(b) {
+                    self.violation(
+                        &format!("{what}_reject_variants_differ"),
+                        format!("native {a:?} vs wasm {b:?}"),
+                        what,
+                    );
+                }
+            }
+            (Ok(_), Err(e)) => self.violation(&format!("{what}_wasm_rejects_native_accepts"), format!("wasm: {e:?}"), what),
+            (Err(e), Ok(_)) => self.violation(&format!("{what}_native_rejects_wasm_accepts"), format!("native: {e:?}"), what),
+            (Ok(a), Ok(b)) => {
+                self.report.count(&format!("c07.{what}.both_accept"));
+                if let Some(d) = diff_changes(&a.canon(), &b.canon()) {
+                    self.violation(&format!("{what}_changes_differ"), format!("native (left) vs wasm (right): {d}"), what);
+                }
+                if let Some(d) = first_debug_diff(&a.tx_status, &b.tx_status) {
+                    self.violation(&format!("{what}_tx_status_differ"), format!("native vs wasm: {d}"), what);
+                }
+                if let Some(d) = first_debug_diff(&a.events, &b.events) {
+                    self.violation(&format!("{what}_events_differ"), format!("native vs wasm: {d}"), what);
+                }
+            }
+        }
+    }
+}
+
+fn reassemble(block: &Block, txs: Vec<Transaction>, produced: &Produced) -> Option<Block> {
+    let mut ids = Vec::new();
+    for s in &produced.tx_status {
+        if let TransactionExecutionResult::Success { receipts, .. } = &s.result {
+            ids.extend(receipts.iter().filter_map(|r| r.message_id()));
+        }
+    }
+    PartialFuelBlock::new(PartialBlockHeader::from(block.header()), txs)
+        .generate(&ids, block.header().event_inbox_root())
+        .ok()
+}
+
+fn invalid_variants(sess: &ChainSession, p: &Produced, rng: &mut StdRng) -> Vec<(&'static str, Block)> {
+    let txs = p.block.transactions().to_vec();
+    let n = txs.len();
+    let mut out = Vec::new();
+    let Some(Transaction::Mint(m)) = txs.last() else { return out };
+    let rebuilt = |amount: u64, index: u16| -> Transaction {
+        Transaction::mint(
+            chaingen::fuel_core_types::fuel_tx::TxPointer::new(m.tx_pointer().block_height(), index),
+            m.input_contract().clone(),
+            *m.output_contract(),
+            amount,
+            *m.mint_asset_id(),
+            *m.gas_price(),
+        )
+        .into()
+    };
+    let idx = m.tx_pointer().tx_index();
+    let mut v = txs.clone();
+    v[n - 1] = rebuilt(*m.mint_amount() + 1, idx);
+    if let Some(b) = reassemble(&p.block, v, p) {
+        out.push(("mint_amount_plus", b));
+    }
+    let mut v = txs.clone();
+    v[n - 1] = rebuilt(*m.mint_amount(), idx + 1);
+    if let Some(b) = reassemble(&p.block, v, p) {
+        out.push(("mint_index_plus", b));
+    }
+    if n >= 2 {
+        let mut v = txs.clone();
+        let k = rng.gen_range(0..n - 1);
+        v.insert(n - 1, txs[k].clone());
+        if let Some(b) = reassemble(&p.block, v, p) {
+            out.push(("duplicate_tx", b));
+        }
+        // drop a transaction but keep the header: tx root mismatch
+        let mut b = p.block.clone();
+        b.transactions_mut().remove(k);
+        out.push(("tx_removed_header_kept", b));
+    }
+    if let Some(prev) = sess.history.last() {
+        if let Some(t) = prev.block.transactions().first() {
+            let mut v = txs.clone();
+            v.insert(0, t.clone());
+            if let Some(b) = reassemble(&p.block, v, p) {
+                out.push(("previous_block_tx", b));
+            }
+        }
+    }
+    out
+}
+
+fn source_for(rng: &mut StdRng) -> SourceKind {
+    match rng.gen_range(0..8) {
+        0..=2 => SourceKind::Honest,
+        3 => SourceKind::HonestChunked(rng.gen_range(1..4)),
+        4..=5 => SourceKind::Once,
+        6 => SourceKind::IgnoreGas,
+        _ => SourceKind::IgnoreAll,
+    }
+}
+
+fn run_session(report: &Report, selftest: Option<u32>, seed: u64, shard: usize, session: usize, rng: &mut StdRng, blocks: u32) {
+    let mut cfg = SessionConfig::random(rng);
+    cfg.max_txs_per_block = 10;
+    let mut sess = ChainSession::new(rng, cfg);
+    let native = sess.executor_for(Strategy::Native);
+    let wasm = sess.executor_for(Strategy::Wasm);
+    let opt = GenOptions::default();
+    for _ in 0..blocks {
+        let parent_da = sess.da_height;
+        let plan: BlockPlan = sess.gen_block_plan(rng, &opt);
+        let source = source_for(rng);
+        let labels: Vec<String> = plan.txs.iter().map(|p| p.label()).collect();
+        let replay = |what: &str| {
+            json!({"seed": seed, "shard": shard, "session": session, "block": plan.height,
+                   "ops": {"what": what, "source": source.name(), "txs": labels, "da": [parent_da, plan.da_height], "gas_price": plan.gas_price}})
+        };
+        let cmp = Cmp {
+            report,
+            selftest,
+            replay: &replay,
+        };
+        report.eval();
+        // ---- production
+        let n = catch(|| sess.produce_on(&native, &plan, &plan.txs, source, false));
+        let w = catch(|| sess.produce_on(&wasm, &plan, &plan.txs, source, false));
+        let (n, mut w) = match (n, w) {
+            (Ok(n), Ok(w)) => (n, w),
+            (a, b) => {
+                report.inconclusive(format!("panic during production: native {:?} wasm {:?}", a.err(), b.err()));
+                return;
+            }
+        };
+        if let Ok(p) = &mut w {
+            if selftest == Some(1) && p.events.len() >= 2 {
+                p.events.swap(0, 1);
+            }
+            if selftest == Some(2) {
+                if let Some((_, tree)) = p.changes.iter_mut().find(|(_, t)| !t.is_empty()) {
+                    let k = tree.keys().next().cloned().unwrap();
+                    tree.remove(&k);
+                }
+            }
+            if selftest == Some(3) && !p.skipped.is_empty() {
+                p.skipped[0].1 = ExecutorError::MintMissing;
+            }
+        }
+        cmp.production("production", &n, &w);
+        // ---- dry run (no relayer processing, no mint)
+        let dn = catch(|| sess.produce_on(&native, &plan, &plan.txs, source, true));
+        let dw = catch(|| sess.produce_on(&wasm, &plan, &plan.txs, source, true));
+        if let (Ok(dn), Ok(dw)) = (&dn, &dw) {
+            cmp.production("dry_run", dn, dw);
+        } else {
+            report.inconclusive(format!("panic during dry run: {:?} {:?}", dn.as_ref().err(), dw.as_ref().err()));
+        }
+        let Ok(produced) = n else {
+            report.count("c07.block_not_produced");
+            break
+        };
+        // ---- validation of the produced block and of invalid variants
+        let vn = catch(|| sess.validate_on(&native, &produced.block));
+        let vw = catch(|| sess.validate_on(&wasm, &produced.block));
+        match (vn, vw) {
+            (Ok(vn), Ok(vw)) => cmp.validation("validation", &vn, &vw),
+            (a, b) => report.inconclusive(format!("panic during validation: {:?} {:?}", a.err(), b.err())),
+        }
+        for (name, b) in invalid_variants(&sess, &produced, rng) {
+            let vn = catch(|| sess.validate_on(&native, &b));
+            let vw = catch(|| sess.validate_on(&wasm, &b));
+            match (vn, vw) {
+                (Ok(vn), Ok(vw)) => cmp.validation(&format!("validation_of_{name}"), &vn, &vw),
+                (a, b) => report.inconclusive(format!("panic during validation of {name}: {:?} {:?}", a.err(), b.err())),
+            }
+        }
+        // ---- evidence
+        let failed = produced
+            .tx_status
+            .iter()
+            .filter(|s| matches!(s.result, TransactionExecutionResult::Failed { .. }))
+            .count();
+        report.add("c07.txs_executed", produced.tx_status.len().saturating_sub(1) as u64);
+        report.add("c07.txs_failed", failed as u64);
+        report.add("c07.txs_skipped", produced.skipped.len() as u64);
+        report.count(&format!("c07.source.{}", source.name()));
+        if plan.da_height > parent_da {
+            report.count("c07.blocks_with_da_advance");
+        }
+        let state_write = produced.changes.get(&2u32).map(|t| !t.is_empty()).unwrap_or(false);
+        if state_write {
+            report.count("c07.blocks_with_contract_state_write");
+        }
+        if produced.tx_status.len() >= 2 && (failed > 0 || !produced.skipped.is_empty() || state_write || plan.da_height > parent_da) {
+            report.count("c07.nontrivial_blocks");
+            let mut shape: Vec<String> = labels.clone();
+            shape.sort();
+            report.distinct(&(shape, produced.skipped.len(), failed, plan.da_height - parent_da));
+        }
+        for p in &plan.txs {
+            report.count(&format!("c07.tx.{}", p.label().split(['[', '+', ' ', '{']).next().unwrap_or("")));
+        }
+        if report.wants_sample() && chance(rng, 10) {
+            report.sample(replay("sample"));
+        }
+        if let Err(e) = sess.commit(&produced.block, &produced.changes) {
+            report.inconclusive(format!("commit failed: {e}"));
+            return;
+        }
+        sess.note_committed(&plan);
+        sess.note_skipped(&plan, &produced);
+    }
+}
+
+fn c07(args: &Args, report: &Report) {
+    let selftest: Option<u32> = args.extra.get("selftest").and_then(|s| s.parse().ok());
+    // compile (or load from wasmtime's on-disk cache) the module once, outside the shards
+    {
+        let t = std::time::Instant::now();
+        let mut rng = rng_for(args.seed, &[0xC07]);
+        let cfg = SessionConfig::random(&mut rng);
+        let s = ChainSession::new(&mut rng, cfg);
+        match catch(|| s.executor_for(Strategy::Wasm)) {
+            Ok(_) => report.info("wasm_module_ready_s", json!(t.elapsed().as_secs_f64())),
+            Err(p) => {
+                report.inconclusive(format!("cannot build the WASM executor: {p}"));
+                return;
+            }
+        }
+    }
+    let shards = args.by_tier(16, 32);
+    let sessions = args.by_tier(1, 12);
+    let blocks = args.by_tier(5u32, 10);
+    if let Some(r) = read_replay(args) {
+        let seed = r.get("seed").and_then(|v| v.as_u64()).unwrap_or(args.seed);
+        let shard = r.get("shard").and_then(|v| v.as_u64()).unwrap_or(0) as usize;
+        let session = r.get("session").and_then(|v| v.as_u64()).unwrap_or(0) as usize;
+        let shard_seed = mix(seed, &[tag(&args.property), shard as u64]);
+        let mut rng = rng_for(shard_seed, &[session as u64]);
+        if let Err(p) = catch(|| run_session(report, selftest, seed, shard, session, &mut rng, blocks)) {
+            report.inconclusive(format!("replay panicked in harness: {p}"));
+        }
+        return;
+    }
+    let seed = args.seed;
+    let rep = report.clone();
+    run_shards(report, args, shards, move |shard, shard_seed| {
+        for session in 0..sessions {
+            let mut rng = rng_for(shard_seed, &[session as u64]);
+            run_session(&rep, selftest, seed, shard, session, &mut rng, blocks);
+        }
+    });
+    report.require("c07.production.both_ok", args.by_tier(60, 2_000));
+    report.require("c07.validation.both_accept", args.by_tier(60, 2_000));
+    report.require("c07.validation_both_reject", args.by_tier(150, 5_000));
+    report.require("c07.dry_run.both_ok", args.by_tier(60, 2_000));
+    report.require("c07.nontrivial_blocks", args.by_tier(40, 1_500));
+    report.require("c07.txs_failed", args.by_tier(20, 700));
+    report.require("c07.txs_skipped", args.by_tier(40, 1_500));
+    report.require("c07.blocks_with_contract_state_write", args.by_tier(15, 500));
+    report.require("c07.blocks_with_da_advance", args.by_tier(20, 700));
+}
 
 fn main() {
     let args = Args::parse();
     install_quiet_panic_hook();
     let report = Report::new(&args.property);
     match args.property.as_str() {
+        "C07" => c07(&args, &report),
         other => report.inconclusive(format!("property {other} not implemented in this monitor")),
     }
-    report.finish(&args, "exploration", "", false, &[]);
+    report.finish(
+        &args,
+        "exploration",
+        RULE,
+        false,
+        &[
+            "the WASM blob is the one the harness build embeds (built from /repo by fuel-core-upgradable-executor's build.rs)",
+            "both executors read the same in-memory databases; nothing is committed between the compared calls",
+            "error variants are compared by variant names (two levels), not payload text",
+        ],
+    );
 }
